@@ -77,6 +77,10 @@ func matchCallee(canon, pat string) bool {
 	if canon == pat {
 		return true
 	}
+	if strings.HasPrefix(canon, "$dyn:") {
+		// calls through function values match only by the exact origin ("execute" for a parameter)
+		return canon == "$dyn:"+pat
+	}
 	if strings.HasSuffix(canon, pat) {
 		c := canon[len(canon)-len(pat)-1]
 		return c == '.' || c == '/' || c == ':'
@@ -1299,7 +1303,13 @@ func (vc *VC) ret(ins *ssa.Return) {
 		if e.Derived {
 			continue
 		}
-		g := vc.trBool(e.Expr, env, e)
+		g, ok := vc.tryTrBool(e.Expr, env, e)
+		if !ok {
+			// the clause mentions a local variable that is not in scope at this return (it is checked at the
+			// returns where it is; a clause that is in scope nowhere is a binding failure, see Generate)
+			continue
+		}
+		vc.ensuresSeen[e]++
 		det := fmt.Sprintf("ensures.%d", e.Index)
 		if e.Detail != "" {
 			det = e.Detail
